@@ -518,6 +518,19 @@ func TestVerifC16(t *testing.T) {
 		}
 	}
 	gen("", maxLen)
+	// long lines (buffer sizes of line readers: 4 KiB, 64 KiB): a snippet, when shown, is still the
+	// referenced line
+	if r.Shard == 0 {
+		for _, n := range []int{4095, 4096, 4097, 8192, 9000, 65535, 65536, 70000} {
+			for _, src := range []string{strings.Repeat("x", n) + "\nab\ncd\n", "ab\n" + strings.Repeat("y", n) + "\ncd", "ab\ncd\n" + strings.Repeat("z", n)} {
+				for line := 1; line <= 3; line++ {
+					for _, col := range []int{1, 2, n} {
+						c16Snippet(r, src, line, col)
+					}
+				}
+			}
+		}
+	}
 }
 
 func c16Width(s string) (int, bool) {
